@@ -34,6 +34,13 @@ def wrapCoord (n : Nat) (o : Int) : Int := if o < 0 then o + n else o
 def indexCoords (rows cols : Nat) (oRow oCol : Int) (row col : Nat) : Int × Int :=
   ((col : Int) - wrapCoord cols oCol, wrapCoord rows oRow - (row : Int))
 
+/-- `index_coords(data)` without an origin: the pole is the centre pixel `(rows // 2, cols // 2)` -/
+def defaultPole (rows cols : Nat) : Int × Int := (((rows / 2 : Nat) : Int), ((cols / 2 : Nat) : Int))
+
+/-- `index_coords(data, origin=None)` -/
+def indexCoordsDefault (rows cols : Nat) (row col : Nat) : Int × Int :=
+  indexCoords rows cols (defaultPole rows cols).1 (defaultPole rows cols).2 row col
+
 /-- sample position (row, col) of the polar grid point (r, θ) in `reproject_image_into_polar` -/
 def samplePos (oRow oCol r θ : α) : α × α :=
   let xy := polar2cart r θ
